@@ -398,11 +398,29 @@ def run(ctx):
         v = ctx.view("edge_similarity.jaccard_similarity")
         rets = [n for n in walk_no_nested(v.fi.node) if isinstance(n, ast.Return) and n.value is not None]
 
-        def int_count(e):
+        def int_valued_call(e, depth=0):
+            """a call of a repository function all of whose returns are integer counts (`intersection(a, b)`)"""
+            if not (isinstance(e, ast.Call) and depth < 3):
+                return False
+            cs = v.ctx.callees(v.fi, getattr(e, "_orig", e))
+            if not cs and isinstance(e.func, ast.Name):
+                cs = [g for g in v.ctx.prog.functions.values() if g.name == e.func.id and g.module is v.fi.module and g.cls is None]
+            if not cs:
+                return False
+            for g in cs:
+                gv = ctx.view(g)
+                rs = [n for n in walk_no_nested(g.node) if isinstance(n, ast.Return) and n.value is not None]
+                if not rs or not all(int_count(gv.inline(r_.value), depth + 1) for r_ in rs):
+                    return False
+            return True
+
+        def int_count(e, depth=0):
             if isinstance(e, ast.Call) and isinstance(e.func, ast.Name) and e.func.id == "len":
                 return True
+            if int_valued_call(e, depth):
+                return True
             if isinstance(e, ast.BinOp) and isinstance(e.op, (ast.Add, ast.Sub, ast.Mult)):
-                return int_count(e.left) and int_count(e.right)
+                return int_count(e.left, depth) and int_count(e.right, depth)
             return isinstance(e, ast.Constant) and isinstance(e.value, int)
 
         def setop(e, names, sym):
@@ -420,10 +438,22 @@ def run(ctx):
             e = v.inline(r.value)
             ok = isinstance(e, ast.BinOp) and isinstance(e.op, ast.Div) and int_count(e.left) and int_count(e.right)
             calls_other = any(isinstance(x, ast.Call) and v.ctx.callees(v.fi, x) for x in ast.walk(r.value))
-            floaty = any(isinstance(x, ast.BinOp) and isinstance(x.op, (ast.Sub, ast.Add)) and any(isinstance(y, ast.BinOp) and isinstance(y.op, ast.Div) or (isinstance(y, ast.Call) and (v.ctx.callees(v.fi, getattr(y, "_orig", y)) or (isinstance(y.func, ast.Name) and any(g.name == y.func.id and g.module is v.fi.module and g.cls is None for g in v.ctx.prog.functions.values())))) for y in (x.left, x.right)) for x in ast.walk(e))
+            floaty = any(isinstance(x, ast.BinOp) and isinstance(x.op, (ast.Sub, ast.Add)) and any(isinstance(y, ast.BinOp) and isinstance(y.op, ast.Div) or (isinstance(y, ast.Call) and not int_valued_call(y) and (v.ctx.callees(v.fi, getattr(y, "_orig", y)) or (isinstance(y.func, ast.Name) and any(g.name == y.func.id and g.module is v.fi.module and g.cls is None for g in v.ctx.prog.functions.values())))) for y in (x.left, x.right)) for x in ast.walk(e))
             res.add("D-RATIO", v.fi.short, norm(r), "single-division", "ok" if ok else ("violation" if floaty else "unknown"), "" if ok else "the similarity is not computed as one division of integer counts: an extra floating-point step (e.g. 1 - distance) makes `w >= s` fail when the similarity equals s exactly", loc(v.fi, r))
             if ok:
-                i_ok, u_ok = setop(e.left, ("intersection",), ast.BitAnd), setop(e.right, ("union",), ast.BitOr)
+                def is_inter(x):
+                    if setop(x, ("intersection",), ast.BitAnd):
+                        return True
+                    if isinstance(x, ast.Call) and int_valued_call(x):
+                        g_ = (v.ctx.callees(v.fi, getattr(x, "_orig", x)) or [g for g in v.ctx.prog.functions.values() if isinstance(x.func, ast.Name) and g.name == x.func.id and g.module is v.fi.module and g.cls is None])
+                        return bool(g_) and all(all(setop(ctx.view(g).inline(r_.value), ("intersection",), ast.BitAnd) for r_ in walk_no_nested(g.node) if isinstance(r_, ast.Return) and r_.value is not None) for g in g_)
+                    return None if not (isinstance(x, ast.Call) and isinstance(x.func, ast.Name) and x.func.id == "len") else False
+
+                i_ok, u_ok = is_inter(e.left), setop(e.right, ("union",), ast.BitOr)
+                # inclusion-exclusion: |a| + |b| - |a & b| is |a | b|
+                d_ = e.right
+                if u_ok is None and isinstance(d_, ast.BinOp) and isinstance(d_.op, ast.Sub) and is_inter(d_.right) and isinstance(d_.left, ast.BinOp) and isinstance(d_.left.op, ast.Add) and all(isinstance(y, ast.Call) and isinstance(y.func, ast.Name) and y.func.id == "len" and len(y.args) == 1 and isinstance(y.args[0], ast.Name) for y in (d_.left.left, d_.left.right)) and d_.left.left.args[0].id != d_.left.right.args[0].id:
+                    u_ok = True
                 st = "ok" if i_ok and u_ok else ("violation" if i_ok is False or u_ok is False else "unknown")
                 res.add("D-RATIO", v.fi.short, norm(r), "inter/union", st, "" if st == "ok" else "the similarity is not |a & b| / |a | b|", loc(v.fi, r))
         v = ctx.view("edge_similarity.intersection")
